@@ -176,6 +176,9 @@ func installHarnessAPI(c *Ctx, hpkgs []string) {
 			panic(abortPath{"assert always fails"})
 		}
 		in[p+".verifReach"] = func(c *Ctx, a []Value) Value { c.reach[cstr(a[0])]++; return nil }
+		// verifNative: false in the engine, true in the natively compiled replay (lets a
+		// harness hand the real runtime's own objects to the code under test there)
+		in[p+".verifNative"] = func(c *Ctx, a []Value) Value { return Bool(false) }
 		in[p+".verifKnownClass"] = func(c *Ctx, a []Value) Value {
 			c.kf = append(c.kf, kfClass{id: cstr(a[0]), cond: a[1].(*Term)})
 			return nil
